@@ -375,14 +375,15 @@ func runGCS() {
 		// the child died: attribute to the open probe
 		rep.Evaluations += evals
 		rep.Histogram["gcs/child-run-that-died"] += evals
-		se := stderr.String()
+		full := stderr.String()
+		se := full
 		if len(se) > 600 {
 			se = se[:600]
 		}
 		kind, what := "panic", "the child process died (fatal error / crash) while running this probe"
 		if timedOut || hang != nil {
 			kind, what = "time", "the probe did not finish within the child's time limit"
-		} else if strings.Contains(se, "out of memory") || strings.Contains(se, "cannot allocate") || strings.Contains(se, "too large") {
+		} else if strings.Contains(full, "out of memory") || strings.Contains(full, "cannot allocate") || strings.Contains(full, "too large") {
 			kind, what = "alloc", fmt.Sprintf("the probe tried to allocate beyond the child's %d KiB address-space cap (allocation driven by a count claimed inside the input, not by its length)", gcsMemCapKiB)
 		}
 		entry := "gcs"
@@ -391,7 +392,7 @@ func runGCS() {
 			Scale string `json:"scale"`
 		}
 		json.Unmarshal(openReplay, &pr)
-		op := lastOp(se)
+		op := lastOp(full)
 		if op != "" {
 			entry = "gcs." + op
 		} else if pr.Scale != "" {
